@@ -15,6 +15,16 @@ pub assume_specification<T, A: std::alloc::Allocator>[ VecDeque::<T, A>::get ](v
         i < v@.len() ==> r == Some(&v@[i as int]),
         i >= v@.len() ==> r is None;
 
+pub assume_specification<T, A: std::alloc::Allocator>[ VecDeque::<T, A>::front ](v: &VecDeque<T, A>) -> (r: Option<&T>)
+    ensures
+        v@.len() > 0 ==> r == Some(&v@[0]),
+        v@.len() == 0 ==> r is None;
+
+pub assume_specification<T, A: std::alloc::Allocator>[ VecDeque::<T, A>::back ](v: &VecDeque<T, A>) -> (r: Option<&T>)
+    ensures
+        v@.len() > 0 ==> r == Some(&v@[v@.len() - 1]),
+        v@.len() == 0 ==> r is None;
+
 // ---- stub of rip_kernel::Event: only the field the store reads ------------------------------
 pub struct EventKind { pub filler: u8 }
 pub struct Event {
@@ -51,6 +61,24 @@ impl FrameStore {
     //@@ fn crates/rip-tui/src/frame_store.rs FrameStore::is_empty
     //@@ sig
         ensures ret == (self@.len() == 0),  // [is_empty.view]
+    //@@ end
+
+    //@@ fn crates/rip-tui/src/frame_store.rs FrameStore::first_seq
+    //@@ sig
+        ensures
+            self@.len() == 0 ==> ret is None,                                   // [first_seq.empty]
+            self@.len() > 0 ==> ret == Some(self@[0].seq),                      // [first_seq.view]
+    //@@ closure 0
+        -> (r: u64) ensures r == event.seq
+    //@@ end
+
+    //@@ fn crates/rip-tui/src/frame_store.rs FrameStore::last_seq
+    //@@ sig
+        ensures
+            self@.len() == 0 ==> ret is None,                                   // [last_seq.empty]
+            self@.len() > 0 ==> ret == Some(self@[self@.len() - 1].seq),        // [last_seq.view]
+    //@@ closure 0
+        -> (r: u64) ensures r == event.seq
     //@@ end
 
     //@@ fn crates/rip-tui/src/frame_store.rs FrameStore::push
